@@ -130,6 +130,9 @@ func buildItem(a J) ap.Item {
 	switch a["k"] {
 	case "nil":
 		if as, ok := a["as"].(string); ok && as != "" { // typed nil pointer
+			if as == "IRI" {
+				return (*ap.IRI)(nil)
+			}
 			return reflect.Zero(reflect.PtrTo(goTypes[as])).Interface().(ap.Item)
 		}
 		return nil
